@@ -92,6 +92,8 @@ where
     pub fn unchecked_read_ref_at<'a>(&self, index: usize, reader: &'a Reader) -> Option<&'a T> {
         let offset = (index * Self::SIZE_OF_T) + HEADER_OFFSET;
         let bytes = reader.prefixed(offset);
+        #[cfg(feature = "verif_hooks")]
+        rawdb::verif::access(|| rawdb::verif::AccessEvent::Ptr { addr: bytes.as_ptr() as usize, len: Self::SIZE_OF_T });
         T::ref_from_prefix(bytes).map(|(v, _)| v).ok()
     }
 }
